@@ -53,6 +53,8 @@ func c06Case(c *core.Ctx, idx int) {
 		return e1 == nil && e2 == nil && bytes.Equal(ca, cb)
 	}
 	var reuse []byte
+	var seenVals []reflect.Value
+	var seenRefs [][]byte
 	nv := 10
 	if c.Thorough() {
 		nv = 50
@@ -75,6 +77,9 @@ func c06Case(c *core.Ctx, idx int) {
 		noteShape(c, tc, v)
 		if len(ref) == 0 {
 			rec.Count("encodes_to_nothing", 1)
+		}
+		if !multi {
+			seenVals, seenRefs = append(seenVals, model.DeepCopy(v)), append(seenRefs, ref)
 		}
 		// repetitions
 		for k := 0; k < 2; k++ {
@@ -159,6 +164,17 @@ func c06Case(c *core.Ctx, idx int) {
 		}
 		if rec.WantSample() && len(ref) > 2 && len(ref) < 60 {
 			rec.Sample(map[string]any{"config": tc.name, "type": typeString(tc.typ), "value": model.Show(v), "bytes": fmt.Sprintf("%x", ref), "prefixes": "len 0/1/17/4096 x cap len, len+1, len+n+64"})
+		}
+	}
+	// the result depends on the value alone also while other goroutines marshal other values of the
+	// type on the same instance, by value and by pointer
+	if idx%4 == 2 && len(seenVals) > 1 {
+		const g, rounds = 4, 12
+		same := func(i int, a, b []byte) bool { return bytes.Equal(a, b) }
+		rec.Eval(g * rounds * len(seenVals))
+		rec.Count("concurrent_marshal_calls", g*rounds*len(seenVals))
+		if d := concurrentMarshals(tc.p, seenVals, seenRefs, same, g, rounds, true); d != "" {
+			rec.Violation("concurrent-callers", fmt.Sprintf("[%s] %s\n  type %s", tc.name, d, typeString(tc.typ)), caseExtra(tc, reflect.Value{}, nil))
 		}
 	}
 }
